@@ -58,6 +58,13 @@ func (t *TransactionCancelTimer) Start() error {
 	return nil
 }
 
+// IsStarted returns true if the timer was started and not stopped since.
+func (t *TransactionCancelTimer) IsStarted() bool {
+	t.doneMutex.Lock()
+	defer t.doneMutex.Unlock()
+	return t.done != nil
+}
+
 func (t *TransactionCancelTimer) Stop() {
 	t.doneMutex.Lock()
 	defer t.doneMutex.Unlock()
